@@ -515,7 +515,9 @@ def projection_subset_argument(m, elem, rng, facet=False):
     if facet:
         bf = m.boundary_facets()
         k = int(rng.integers(1, max(2, len(bf))))                 # a proper part of the boundary
-        F = np.sort(bf[rng.permutation(len(bf))[:k]])
+        F = bf[rng.permutation(len(bf))[:k]]                        # UNSORTED, as np.concatenate of two tags would be
+        if rng.integers(0, 3) == 0:
+            F = np.concatenate((F, F[:1]))                          # ... and possibly with a repeated index
         fb = FacetBasis(m, elem)                                   # the whole boundary
         I = whole.get_dofs(facets=F).flatten()
         y = fb.project(fb.interpolate(x), facets=F)
@@ -523,7 +525,9 @@ def projection_subset_argument(m, elem, rng, facet=False):
     else:
         nt = m.t.shape[1]
         k = int(rng.integers(1, max(2, nt)))                       # a proper subset of the cells
-        S = np.sort(rng.permutation(nt)[:k])
+        S = rng.permutation(nt)[:k]                                 # UNSORTED index array
+        if rng.integers(0, 3) == 0:
+            S = np.concatenate((S, S[:1]))                          # ... possibly with a repeated index
         I = whole.get_dofs(elements=S).flatten()
         y = whole.project(whole.interpolate(x), elements=S)
         sub = {'elements': S.tolist()}
